@@ -11,7 +11,7 @@ git apply $patch || { echo "patch does not apply: $patch"; exit 2; }
 go build ./... || { echo "BUILD FAILS: $patch"; git checkout -q -- .; exit 2; }
 n=0
 for i in $(seq -w 1 20); do
-  out=$(PLVERIF_REPO=$wt /verif/bin/plverif check -p C$i -evidence /tmp/try_rf_ev 2>&1)
+  out=$(PLVERIF_REPO=$wt ${PLVERIF_BIN:-/verif/bin/plverif} check -p C$i -evidence /tmp/try_rf_ev 2>&1)
   if echo "$out" | grep -q "^VIOLATION\|panic:"; then
     n=$((n+1))
     echo "== C$i reports on $(basename $(dirname $patch))/$(basename $patch):"; echo "$out" | grep "violated\|undecided\|panic:" | cut -c1-420 | head -8
